@@ -133,6 +133,16 @@ def show(t):
         return f"{k}({show(t[1])})"
     if k == "mismatch":
         return f"!{t[1]}!"
+    if k in ("eigvals", "eigvecs"):
+        return f"{k}_{t[1]}({show(t[2])})"
+    if k == "fapply":
+        return f"{t[1]}({show(t[2])})"
+    if k == "sfn":
+        return f"{t[1]}({show(t[2])})"
+    if k == "lambdaobj":
+        return "<lambda>"
+    if k == "zero":
+        return "0"
     if k == "join":
         return " | ".join(show(x) for x in t[1])
     if k == "tuple":
@@ -164,6 +174,9 @@ def snorm(s, hyp):
             return x[1]
         if x[0] == "num" and x[1] in (1, 1.0):
             return ("num", 1)
+        if x[0] == "num" and x[1] != 0:
+            v = 1 / x[1]
+            return ("num", int(v) if v == int(v) else v)
         if x[0] == "smul":
             return snorm(("smul", tuple(("sinv", y) for y in x[1])), hyp)
         return ("sinv", x)
@@ -194,6 +207,8 @@ def snorm(s, hyp):
         val = 1
         for n in nums:
             val = val * n
+        if isinstance(val, float) and val == int(val):
+            val = int(val)
         if nums and val != 1:
             rest = [("num", val)] + rest
         if not rest:
@@ -207,7 +222,7 @@ def snorm(s, hyp):
 # ------------------------------------------------------------------ matrix normaliser
 def norm(t, hyp=frozenset()):
     k = t[0]
-    if k in ("sym", "I", "var", "opaque", "mismatch", "chol", "plu", "argsort", "recip", "pinv", "iter", "factor", "elt"):
+    if k in ("sym", "I", "var", "opaque", "mismatch", "chol", "plu", "argsort", "recip", "pinv", "iter", "factor", "elt", "eigvals", "eigvecs", "fapply", "zero", "lu", "svdpart"):
         return t
     if k == "perm":
         return ("perm", norm_vec(t[1]))
@@ -215,6 +230,11 @@ def norm(t, hyp=frozenset()):
         return ("join", frozenset(norm(x, hyp) for x in t[1]))
     if k == "tuple":
         return ("tuple", tuple(norm(x, hyp) for x in t[1]))
+    if k in ("mul", "add") and any(isinstance(x, tuple) and x and x[0] == "join" for x in t[1]):
+        # distribute alternatives: every combination must be compared on its own
+        import itertools as _it
+        choices = [list(x[1]) if (isinstance(x, tuple) and x and x[0] == "join") else [x] for x in t[1]]
+        return ("join", frozenset(norm((k, tuple(c)), hyp) for c in _it.product(*choices)))
     if k == "mul":
         out = []
         scal = []
@@ -253,16 +273,37 @@ def norm(t, hyp=frozenset()):
                 out += list(x[1])
             else:
                 out.append(x)
+        # combine like terms: x + x -> 2x, s x + t x stays (no scalar sums of coefficients needed here)
+        coeff = {}
+        order = []
+        for x in out:
+            c, b = (x[1], x[2]) if x[0] == "scal" and x[1][0] == "num" else (("num", 1), x)
+            if b not in coeff:
+                coeff[b] = 0
+                order.append(b)
+            coeff[b] += c[1]
+        out = []
+        for b in order:
+            c = coeff[b]
+            if c == 0:
+                continue
+            out.append(b if c == 1 else ("scal", ("num", c), b))
+        if not out:
+            return ("zero", )
         out = sorted(out, key=repr)
         return out[0] if len(out) == 1 else ("add", tuple(out))
     if k == "scal":
         s = snorm(t[1], hyp)
         x = norm(t[2], hyp)
+        if x[0] == "join":
+            return ("join", frozenset(norm(("scal", s, y), hyp) for y in x[1]))
         if x[0] == "scal":
             s = snorm(("smul", (s, x[1])), hyp)
             x = x[2]
         if s == ("num", 1):
             return x
+        if x[0] == "add" and s[0] == "num":
+            return norm(("add", tuple(("scal", s, y) for y in x[1])), hyp)
         return ("scal", s, x)
     if k in ("kron", "ksum"):
         out = []
@@ -288,7 +329,23 @@ def norm(t, hyp=frozenset()):
         order = 1 if t[1] in ("add", ) else t[2]
         return ("fam", t[1], order, body) + t[4:]
     if k == "fn":
-        return ("fn", t[1], norm(t[2], hyp))
+        x = norm(t[2], hyp)
+        f = t[1]
+        if x[0] == "diag":
+            return ("diag", ("fapply", f, x[1]))  # f(diag(d)) = diag(f(d))
+        if x == I:
+            return ("scal", ("sfn", f, ("num", 1)), I)  # f(I) = f(1) I
+        if x[0] == "scal" and x[2] == I:
+            return ("scal", ("sfn", f, x[1]), I)  # f(c I) = f(c) I
+        if x[0] in ("T", "C"):
+            return norm((x[0], ("fn", f, x[1])), hyp)  # f(A^T) = f(A)^T; f(conj A) = conj f(A) for the real functions used here
+        if x[0] == "fam" and x[1] == "bdiag":
+            return ("fam", "bdiag", x[2], norm(("fn", f, x[3]), hyp)) + x[4:]  # f acts block-wise
+        if x[0] == "fam" and x[1] == "ksum" and f.endswith("exp"):
+            return ("fam", "kron", x[2], norm(("fn", f, x[3]), hyp)) + x[4:]  # exp(A (+) B) = exp(A) (x) exp(B)
+        if x[0] == "fam" and x[1] == "kron" and f.startswith("pow:"):
+            return ("fam", "kron", x[2], norm(("fn", f, x[3]), hyp)) + x[4:]  # (A (x) B)^a = A^a (x) B^a
+        return ("fn", f, x)
     if k == "famsplice":
         return norm(("fam", ) + t[1:], hyp)
     if k == "diag":
@@ -470,6 +527,16 @@ class TermEval(AbsInt):
         return alternatives(v)
 
     def element_of(self, v, i):
+        if isinstance(v, tuple) and v and v[0] == "factor" and isinstance(i, int):
+            name, x = v[1], v[2]
+            if name in ("eigh", "eig"):
+                return ("eigvals", name, x) if i == 0 else ("eigvecs", name, x)
+            if name == "lu":
+                return ("lu", x, i)
+            if name == "svd":
+                return ("svdpart", x, i)
+            if name == "qr":
+                return ("opaque", "qr factor")
         if isinstance(v, tuple) and v and v[0] == "list":
             if isinstance(i, int) and -len(v[1]) <= i < len(v[1]):
                 return v[1][i]
@@ -492,6 +559,8 @@ class TermEval(AbsInt):
         if attr in ("A", "diag", "c", "perm", "lower", "multiplicities", "alpha", "beta", "gamma", "data", "shape", "dtype", "device", "xnp"):
             if base[0] == "sym":
                 return sym(f"{base[1]}.{attr}")
+        if base[0] == "sym" and base[1].endswith(".xnp"):
+            return sym(f"{base[1]}.{attr}")
         return ("opaque", f".{attr}")
 
     def subscript(self, base, node, ctx):
@@ -570,6 +639,10 @@ class TermEval(AbsInt):
             return t[1]
         if t[0] == "sym" and (t[1].endswith(".c") or t[1] in self.scalars):
             return ("ssym", t[1])
+        if t[0] == "fapply":
+            inner = self.as_scalar(t[2])
+            if inner is not None:
+                return ("sfn", t[1], inner)
         return None
 
     scalars = frozenset()
@@ -720,6 +793,27 @@ class TermEval(AbsInt):
             return ("reshape", recv, tuple(ast.unparse(a) for a in node.args))
         return ("opaque", f".{name}()")
 
+    def call_unknown(self, node, ctx):
+        f = node.func
+        if isinstance(f, ast.Name):
+            fv = self.name(f.id, ctx)
+            args = [self.ev(a, ctx) for a in node.args]
+            if fv[0] == "sym" and len(args) == 1:
+                return ("fapply", fv[1], args[0])
+            if fv[0] == "lambdaobj":
+                lam = fv[1]
+                env = dict(ctx.env)
+                ps = [a.arg for a in lam.args.args]
+                pos = [(n, a) for n, a in zip(node.args, args) if not isinstance(n, ast.Starred)]
+                for p, (n, a) in zip(ps, pos):
+                    env[p] = a
+                if lam.args.vararg is not None:
+                    stars = [a for n, a in zip(node.args, args) if isinstance(n, ast.Starred)]
+                    rest = [a for (n, a) in pos[len(ps):]]
+                    env[lam.args.vararg.arg] = stars[0] if len(stars) == 1 and not rest else ("list", tuple(rest))
+                return self.ev(lam.body, AbsInt.Ctx(ctx.fi, env, ctx.depth + 1))
+        return ("opaque", ast.unparse(f)[:30] + "()")
+
     def call_builtin(self, name, node, args, kwargs, ctx):
         if name == "reversed":
             v = args[0]
@@ -810,7 +904,7 @@ class TermEval(AbsInt):
         if isinstance(node, ast.List):
             return ("list", tuple(self.ev(x, ctx) for x in node.elts))
         if isinstance(node, ast.Lambda):
-            return ("lambda", ast.unparse(node))
+            return ("lambdaobj", node)
         return ("opaque", type(node).__name__)
 
     def name(self, name, ctx):
